@@ -50,6 +50,12 @@ def _where(st, w):
         m = re.match(r"^\(?\s*([A-Za-z_][A-Za-z_0-9]*)\s*(=|!=|<>|<=|>=|<|>|\s+is\s+not\s+|\s+is\s+)\s*(.+?)\s*\)?$", p.strip(), flags=re.I)
         if m:
             st.where.append((m.group(1), _WS.sub(" ", m.group(2).strip().upper()), m.group(3).strip()))
+            continue
+        # a column wrapped in a function: COALESCE(col, 0) = 0, IFNULL(col, x) = ?  -> the term is about `col`
+        m = re.match(r"^([A-Za-z_]+)\s*\(\s*([A-Za-z_][A-Za-z_0-9]*)\s*(,[^()]*)?\)\s*(=|!=|<>|<=|>=|<|>|\s+is\s+not\s+|\s+is\s+)\s*(.+?)$", p.strip(), flags=re.I)
+        if m and m.group(1).lower() in ("coalesce", "ifnull", "abs", "lower", "upper", "length"):
+            st.where.append((m.group(2), _WS.sub(" ", m.group(4).strip().upper()), m.group(5).strip()))
+            st.where_wrapped = getattr(st, "where_wrapped", []) + [(m.group(2), m.group(1).lower(), (m.group(3) or "").lstrip(",").strip())]
         else:
             st.where.append((None, None, p.strip()))
 
